@@ -247,6 +247,38 @@ def explore(ctx, scale=1.0):
             if any(not_allowed(m["error"], k) for m in msgs0):
                 ctx.violation(f"keyword-noversion:{t}/{k}", f"{t.upper()} {k.upper()} rejected without a version", {"type": t, "keyword": k, "document": gen.plain_dict(d)})
     verdict_oracle(ctx, rng)
+    annotations_on_refs(ctx)
+
+
+def annotations_on_refs(ctx):
+    """(e) a version annotation written beside a `$ref` is dropped together with every other sibling when the reference is
+    expanded: such an annotation can never be honoured.  Scan of the raw schema files + the concrete consequence."""
+    from mappyfile.validator import Validator
+    def walk(x, path):
+        if isinstance(x, dict):
+            md = x.get("metadata")
+            if "$ref" in x and isinstance(md, dict) and ("minVersion" in md or "maxVersion" in md):
+                yield path, md
+            for k, v in x.items():
+                yield from walk(v, path + [k])
+        elif isinstance(x, list):
+            for i, v in enumerate(x):
+                yield from walk(v, path + [i])
+    for t in gen.object_types():
+        for path, md in walk(gen.raw(t), []):
+            ctx.case(("annotation-on-ref", t, json.dumps(path)), True)
+            v = (md.get("minVersion", 1.0) - 0.1) if "minVersion" in md else (md["maxVersion"] + 0.1)
+            node = plain(Validator().get_versioned_schema(v, t))
+            try:
+                for pe in path:
+                    node = node[pe]
+                still_there = True
+            except (KeyError, IndexError, TypeError):
+                still_there = False
+            if still_there:
+                ctx.violation(f"annotation-on-ref:{t}:{'/'.join(map(str, path))}",
+                              f"{t}.json {'/'.join(map(str, path))} carries {md} beside a $ref: the annotation is dropped by reference expansion — "
+                              f"the entry is still in the schema for version {v}", {"schema": t, "path": path, "metadata": md, "version": v})
 
 
 def verdict_oracle(ctx, rng):
